@@ -41,6 +41,33 @@ func typeOK(r *gRun, kind string, tgt int, row int) bool {
 	return false
 }
 
+// deliveredOK: is the object that holders RECEIVE for this row assignable to the field? (the registered instance, or the
+// substitute of another Go type that a post-processor hands out for it — Property.Inject checks the delivered value)
+func deliveredOK(r *gRun, kind string, tgt int, row int) bool {
+	if !typeOK(r, kind, tgt, row) {
+		return false
+	}
+	if !r.rows[row].hasInj {
+		return true
+	}
+	if kind == "p" || kind == "P" {
+		return r.rows[row].injTy == tgt
+	}
+	if kind == "i" || kind == "I" {
+		return r.rows[row].injImpl&(1<<tgt) != 0
+	}
+	return false
+}
+
+func anyUndeliverable(r *gRun, kind string, tgt int, rows []int) bool {
+	for _, c := range rows {
+		if c >= 0 && c < len(r.rows) && typeOK(r, kind, tgt, c) && !deliveredOK(r, kind, tgt, c) {
+			return true
+		}
+	}
+	return false
+}
+
 func candsOf(r *gRun, key string) (*slotCands, bool) {
 	info, ok := r.slotInfo[key]
 	if !ok {
@@ -235,11 +262,11 @@ func (r *gRun) matchOracles(add func(sig, format string, a ...any)) {
 		if sc.byName {
 			if sc.kind == "p" || sc.kind == "i" {
 				switch {
-				case sc.named >= 0 && sc.named != sc.holder && typeOK(r, sc.kind, tgt, sc.named) && !sc.hasQual:
+				case sc.named >= 0 && sc.named != sc.holder && deliveredOK(r, sc.kind, tgt, sc.named) && !sc.hasQual:
 					if len(rows) != 1 || rows[0] != sc.named {
 						add("c07-exact", "by-name point %s (%q) holds %v, expected exactly row %d", key, sc.name, objs, sc.named)
 					}
-				case sc.named < 0 || !typeOK(r, sc.kind, tgt, sc.named):
+				case sc.named < 0 || !deliveredOK(r, sc.kind, tgt, sc.named):
 					if len(rows) != 0 {
 						add("c07-absent", "by-name point %s (%q: absent or not assignable) holds %v", key, sc.name, objs)
 					}
@@ -263,7 +290,9 @@ func (r *gRun) matchOracles(add func(sig, format string, a ...any)) {
 				got[row] = true
 			}
 			for c := range want {
-				if !got[c] {
+				// a candidate whose delivered substitute is of another, unassignable Go type makes Inject give up on the
+				// whole point (error when required, untouched when optional): completeness is not demanded then
+				if !got[c] && !anyUndeliverable(r, sc.kind, tgt, sc.admitted) {
 					add("c06-slice-complete", "slice point %s lacks compatible component row %d", key, c)
 				}
 			}
@@ -295,7 +324,8 @@ func (r *gRun) matchOracles(add func(sig, format string, a ...any)) {
 					}
 				}
 			}
-			if len(rows) == 0 && len(sc.choice) > 0 && !(len(sc.choice) == 1 && sc.choice[0] == sc.holder) {
+			if len(rows) == 0 && len(sc.choice) > 0 && !(len(sc.choice) == 1 && sc.choice[0] == sc.holder) &&
+				!anyUndeliverable(r, sc.kind, tgt, sc.choice) {
 				add("c06-single-missing", "single point %s is empty although candidates %v exist", key, sc.choice)
 			}
 		}
